@@ -219,4 +219,11 @@ def r5_keys(ctx):
         ctx.floor("R5", "config writes in de constructors", n, 2, config=cfg)
 
 
-RULES = [("R1", r1_inverse), ("R2", r2_sets), ("R3", r3_delimiter), ("R4", r4_split_before_unescape), ("R5", r5_keys)]
+def r6_quote_target(ctx):
+    """the quoting context (text / double-quoted attribute) is decided once and inherited by every derived serializer"""
+    import quote
+    for cfg, F in ctx.facts.items():
+        quote.check(ctx, "R6", F, cfg)
+
+
+RULES = [("R1", r1_inverse), ("R2", r2_sets), ("R3", r3_delimiter), ("R4", r4_split_before_unescape), ("R5", r5_keys), ("R6", r6_quote_target)]
